@@ -22,6 +22,8 @@ def instances(tier):
         out.append({'entry': 'h_nocase', 'params': [2, 1, 0x100], 'bound': 'a: 2 scalars, b: 1 scalar, below U+0100'})
         out.append({'entry': 'h_nocase', 'params': [2, 2, 0x80], 'bound': 'all pairs of 2-scalar ASCII strings'})
     out.append({'entry': 'h_ascii_case', 'params': [], 'bound': 'every ASCII character 1..127'})
+    for L in ((0, 1, 3, 4, 5, 8, 12, 13, 15, 16, 17) if q else tuple(range(0, 34))):
+        out.append({'entry': 'h_wide', 'params': [L], 'bound': 'String of %d bytes (last two symbolic ASCII) converted to wchar_t in place (operator const wchar_t*, wlength)' % L})
     return out
 
 
